@@ -32,7 +32,10 @@ type C16W struct {
 	// Side: Stop / Wait calls issued by a second task concurrently with the main sequence (all of
 	// them before the final healthy session).
 	Side []C16Op `json:"side,omitempty"`
-	Grid bool    `json:"grid,omitempty"`
+	// SlowConfigure: a Configure handler whose connection is dropped while it runs only finishes once
+	// the next connection has been dialled (a plugin that takes long to configure itself)
+	SlowConfigure bool `json:"slow_configure,omitempty"`
+	Grid          bool `json:"grid,omitempty"`
 }
 
 const c16GridOffsets = 330
@@ -47,7 +50,7 @@ func c16Gen(rng *rand.Rand, conf string, idx int) any {
 	w := &C16W{}
 	n := 1 + rng.Intn(3)
 	for i := 0; i < n; i++ {
-		k := pick(rng, []string{"healthy", "healthy", "unreachable", "refuse", "silent-register", "drop-after-register", "cut"})
+		k := pick(rng, []string{"healthy", "healthy", "unreachable", "refuse", "silent-register", "drop-after-register", "cut", "drop-during-configure", "drop-during-configure"})
 		s := C16Session{Kind: k}
 		if k == "cut" {
 			s.CutDir, s.CutOff = rng.Intn(2), rng.Intn(c16GridOffsets)
@@ -79,6 +82,11 @@ func c16Gen(rng *rand.Rand, conf string, idx int) any {
 		}
 		if rng.Intn(2) == 0 {
 			w.Ops = append(w.Ops, C16Op{"wait"})
+		}
+	}
+	for _, s := range w.Sessions {
+		if s.Kind == "drop-during-configure" && rng.Intn(2) == 0 {
+			w.SlowConfigure = true
 		}
 	}
 	if rng.Intn(3) == 0 {
@@ -212,7 +220,25 @@ func c16Exec(t *testing.T, w *C16W, sc SchedCfg, ph *c16Phases, rec *c16Phases) 
 			return "healthy"
 		}
 		plug := &c16Plugin{markers: map[string]int{}}
-		plug.gate = func(name string) { e.S.ParkOwned("gate:p16:"+name, "plug:p16", nil) }
+		h.ConfigureEntered = plug.cfgCount
+		plug.gate = func(name string) {
+			if w.SlowConfigure && strings.HasPrefix(name, "Configure:") {
+				n := h.Dials - 1
+				if n >= 0 && n < len(w.Sessions) && w.Sessions[n].Kind == "drop-during-configure" {
+					e.S.Probe("C16.configure-handler-outlives-its-session")
+					e.S.ParkOwned("gate:p16:slow-"+name, "plug:p16", func() bool {
+						select {
+						case <-e.Hung():
+							return true
+						default:
+						}
+						return h.Dials-1 > n
+					})
+					return
+				}
+			}
+			e.S.ParkOwned("gate:p16:"+name, "plug:p16", nil)
+		}
 		closes := 0
 		var cmu stdsync.Mutex
 		dial := func(p string) (c stdnet.Conn, err error) {
@@ -407,6 +433,8 @@ func c16Exec(t *testing.T, w *C16W, sc SchedCfg, ph *c16Phases, rec *c16Phases) 
 					return "cut", ph.classify(s.CutDir, s.CutOff)
 				case "drop-after-register":
 					return s.Kind, "runtime->plugin stream ends after the complete RegisterPlugin reply and before the complete Configure request"
+				case "drop-during-configure":
+					return s.Kind, "the runtime end closes the connection while the plugin's Configure handler is running"
 				}
 				return s.Kind, s.Kind
 			}
@@ -485,7 +513,8 @@ func c16Exec(t *testing.T, w *C16W, sc SchedCfg, ph *c16Phases, rec *c16Phases) 
 				} else if kind == "healthy" && r.Err != nil {
 					res.Violate("C16.restart-works", "Start (operation %d of %v) on a fresh connection to a healthy runtime end failed: %v [previous session %d: %s]", i+1, opNames(w.Ops), r.Err, r.Session-1, second(sessKind(r.Session-1)))
 				}
-				if kind != "healthy" && kind != "cut" && r.Err == nil {
+				// (a connection dropped during the Configure handler: the handler may still finish first)
+				if kind != "healthy" && kind != "cut" && kind != "drop-during-configure" && r.Err == nil {
 					res.Violate("C16.start-error", "Start (operation %d) returned nil against a runtime end that is %s", i+1, kind)
 				}
 			case "request":
